@@ -455,6 +455,7 @@ func assumptionsFor(prop string) []string {
 	return []string{
 		"A2: signed integer arithmetic treated as mathematical (no overflow) except in functions marked overflow: checked; unsigned arithmetic is modular",
 		"A3: floating-point +,-,*,/ and math functions are uninterpreted (same arguments give same result); comparisons are uninterpreted predicates unless floats: ieee",
+		"A3r: obligations of kind post.real / after.real (clauses tagged [real]) are decided in a second pass in which float32/float64 are the mathematical reals: no rounding, no overflow, no NaN or Inf (machine arithmetic treated as mathematical); they establish the algorithm, not its rounding behaviour",
 		"A4: assembly kernels satisfy the kernel contracts (not verified; Go fallbacks are)",
 		"A9: partial correctness; termination only where a decreases clause is given",
 		"A10: blas64/lapack64 use the default pure-Go implementation",
@@ -482,7 +483,7 @@ func (e *Engine) VerifyLemmas(prop string, timeoutMs int) []*Obl {
 		for _, p := range lm.Props {
 			o.Props = append(o.Props, p.ID)
 		}
-		fx := &FuncCtx{eng: e, pkg: pi.pkg, info: pi.pkg.TypesInfo, cur: pi, short: o.Name, declSet: map[string]bool{}, freshN: map[string]int{}, oblNames: map[string]int{}, cfg: e.tags, ieee: lm.Floats == "ieee"}
+		fx := &FuncCtx{eng: e, pkg: pi.pkg, info: pi.pkg.TypesInfo, cur: pi, short: o.Name, declSet: map[string]bool{}, freshN: map[string]int{}, oblNames: map[string]int{}, cfg: e.tags, ieee: lm.Floats == "ieee", real: lm.Floats == "real"}
 		fx.con = &Contract{Loops: map[int]*LoopSpec{}, Options: map[string]string{}}
 		st := &State{vars: map[types.Object]Val{}, heap: map[string]Term{}, written: tFalse}
 		fx.entry = st
